@@ -7,8 +7,10 @@
 package evidence
 
 import (
-	"sync/atomic"
+	"reflect"
+	"sync"
 	"time"
+	"unsafe"
 
 	"github.com/kardiachain/go-kardia/kai/kaidb"
 	"github.com/kardiachain/go-kardia/kai/state/cstate"
@@ -61,19 +63,36 @@ func VerifC19EncodeMsg(evis []types.Evidence) ([]byte, error) { return encodeMsg
 func VerifC19DecodeMsg(bz []byte) ([]types.Evidence, error)   { return decodeMsg(bz) }
 
 // VerifC19Clone is a deep-clone helper for the explicit-state search: a pool with the same in-memory
-// fields as p over other (copied) databases. The checker validates clones against replayed histories.
+// fields as p over other (copied) databases. Fields are copied generically (slices and maps freshly
+// allocated, the mutex left zero), so that a field added to Pool later is carried along; the checker
+// validates clones against replayed histories.
 func VerifC19Clone(p *Pool, stateDB cstate.Store, evidenceDB kaidb.Database, blockStore BlockStore) *Pool {
-	c := &Pool{
-		logger:        p.logger,
-		evidenceList:  clist.New(),
-		blockStore:    blockStore,
-		stateDB:       stateDB,
-		evidenceDB:    evidenceDB,
-		state:         p.State(),
-		pruningHeight: p.pruningHeight,
-		pruningTime:   p.pruningTime,
+	c := new(Pool)
+	pv, cv := reflect.ValueOf(p).Elem(), reflect.ValueOf(c).Elem()
+	mutexType := reflect.TypeOf(sync.Mutex{})
+	for i := 0; i < pv.NumField(); i++ {
+		f := pv.Field(i)
+		src := reflect.NewAt(f.Type(), unsafe.Pointer(f.UnsafeAddr())).Elem()
+		dst := reflect.NewAt(f.Type(), unsafe.Pointer(cv.Field(i).UnsafeAddr())).Elem()
+		switch {
+		case f.Type() == mutexType:
+		case f.Kind() == reflect.Slice && !src.IsNil():
+			n := reflect.MakeSlice(f.Type(), src.Len(), src.Len())
+			reflect.Copy(n, src)
+			dst.Set(n)
+		case f.Kind() == reflect.Map && !src.IsNil():
+			n := reflect.MakeMapWithSize(f.Type(), src.Len())
+			for it := src.MapRange(); it.Next(); {
+				n.SetMapIndex(it.Key(), it.Value())
+			}
+			dst.Set(n)
+		default:
+			dst.Set(src)
+		}
 	}
-	atomic.StoreUint32(&c.evidenceSize, p.Size())
+	c.stateDB, c.evidenceDB, c.blockStore = stateDB, evidenceDB, blockStore
+	c.state = p.State()
+	c.evidenceList = clist.New()
 	for e := p.evidenceList.Front(); e != nil; e = e.Next() {
 		c.evidenceList.PushBack(e.Value)
 	}
